@@ -446,17 +446,14 @@ void trace_dim() {
       stensor<N, Sym> s;
       verif::fill_inputs(s, "s", S);
       const Sym eps = verif::scalar_input("eps", p.eps);
-      st2tost2<N, Sym> dpp, dnp, dpp2;
-      stensor<N, Sym> pp, np, pp2;
+      st2tost2<N, Sym> dpp, dnp;
+      stensor<N, Sym> pp, np;
       computeStensorDecompositionInPositiveAndNegativeParts(dpp, dnp, pp, np, s,
                                                             eps);
-      computeStensorPositivePartAndDerivative(dpp2, pp2, s, eps);
       verif::outputs2("a", dpp, S, S);
       verif::outputs2("b", dnp, S, S);
       verif::outputs("p", pp, S);
       verif::outputs("n", np, S);
-      verif::outputs2("qa", dpp2, S, S);
-      verif::outputs("qp", pp2, S);
       set_vp_defaults(1., 2., 3.5);
     }
   }
